@@ -42,7 +42,8 @@ def run_cli(argv: List[str], stdin_bytes: bytes, fs: SimFS) -> ProcResult:
     status = 0
     try:
         sys.argv = ["json"] + list(argv)
-        sys.stdin = io.TextIOWrapper(io.BytesIO(stdin_bytes), encoding="utf-8", errors="strict")
+        # like the interpreter on POSIX: no newline translation on stdin
+        sys.stdin = io.TextIOWrapper(io.BytesIO(stdin_bytes), encoding="utf-8", errors="strict", newline="\n")
         sys.stdout = stdout
         sys.stderr = err_s
         argparse.open = fs.open  # type: ignore[attr-defined]
